@@ -23,6 +23,7 @@ import CBV.Lemmas.C01Core
 import CBV.Lemmas.C04Desc
 import CBV.Lemmas.C04Parity
 import CBV.Lemmas.C04Chop
+import CBV.Lemmas.C04Hist
 
 namespace CBV.Prop
 open CBV.C03 (Vals Q Oracle Tol calculate firstCell lastCell TOL absR)
@@ -302,6 +303,20 @@ theorem T_C04_preserved_end_family (g : Geo) (st : St) (h : run (toInp g) = .ok 
     obtain ⟨a, b, _⟩ := hw.2 hv
     exact ⟨a, by simp [eo, b]⟩
 
+/-! ### round 6c: sessions on one mesh object with vertex moves (M-HIST with the chop calculator inside, `Model/C04Hist.lean`) -/
+
+/-- `Mesh.grade()` on any memory — a completed grading on other edge lengths, the half-done state of a call that raised,
+    copied chops, counts resolved for another geometry — is the run of a freshly assembled mesh on the wire lengths and the
+    chops (as typed) of the moment: the counts of size-based chops, the preserved sizes and every expansion follow the
+    current geometry, nothing of the previous one survives -/
+theorem T_C04_grade_is_runG (g : Geo) (m : Mem) : gradeG g m = runG g := gradeG_eq_runG g m
+
+/-- every `write` of a session of writes, vertex moves and `Block.chop` calls (in any order, from any memory) gives what a
+    fresh mesh with the current edge lengths and the chops placed so far gives: outcome class and the written count of
+    every block direction (extends `T_C02_session_history_free` to changing geometry and to chops resolved by the calculator) -/
+theorem T_C04_session_geometry_free (g : Geo) (m : Mem) (calls : List GCall) : gsession g m calls = specG g calls :=
+  gsession_is_spec calls g m
+
 end CBV.Prop
 
 namespace CBV.Prop.Examples
@@ -372,4 +387,25 @@ example : (resolved twoBoxesG 2).toOption.map (fun r => (r.count, r.c2c)) = some
 /-- `T_C04_own_computed`: axis 1 is user-chopped in the composed input -/
 example : userChopped (toInp twoBoxesG) 1 = true := by decide +kernel
 
+/-! round 6c: a session with vertex moves -/
+
+/-- the two boxes with a size-based x chop on block 0 (`start_size = 1/4, c2c_expansion = 1`), all edges of length 1 -/
+def twoBoxesS : Geo where
+  nBlocks := 2
+  verts := [[0, 1, 2, 3, 4, 5, 6, 7], [1, 8, 9, 2, 5, 10, 11, 6]]
+  len := fun _ => 1
+  uchops := [⟨0, 1, { start := some (1 / 4), c2c := some 1 }, .c2c⟩, ⟨1, 1, { count := some 4, c2c := some 1 }, .c2c⟩,
+             ⟨2, 1, { count := some 3, c2c := some 1 }, .c2c⟩, ⟨3, 1, { count := some 2, c2c := some 1 }, .c2c⟩]
+  tol := {}
+  oa := fun _ => {}
+  ow := fun _ _ _ => {}
+
+/-- a session with vertex moves: written, every edge stretched to length 2, written again (the size-based chop now
+    gives 9 cells instead of 5), a conflicting chop placed on block 1's y direction, written again (refused) -/
+example : (gsession twoBoxesS (freshMem (toInp twoBoxesS))
+      [.write (fun _ => {}) (fun _ _ _ => {}), .move (fun _ => 2), .write (fun _ => {}) (fun _ _ _ => {}),
+       .chop ⟨4, 1, { count := some 7, c2c := some 1 }, .c2c⟩, .write (fun _ => {}) (fun _ _ _ => {})]).map Except.toOption
+    = [some [5, 4, 3, 2, 4, 3], some [9, 4, 3, 2, 4, 3], none] := by
+  rw [T_C04_session_geometry_free]
+  decide +kernel
 end CBV.Prop.Examples
